@@ -88,6 +88,12 @@ def _ev(S, F, x, asg, tabs):
         return tab[i][j]
     if k == "cindex":
         return _ev(S, F, ("index", x[1], ("const", x[2])), asg, tabs)
+    if k == "index" and x[1][0] == "table" and asg.get("pairs") and x[1][1] in asg["pairs"]:
+        i = _ev(S, F, x[2], asg, tabs)
+        tab = asg["pairs"][x[1][1]]
+        if not isinstance(i, int) or not (0 <= i < len(tab)):
+            raise _Unknown("pair table index %s" % (i,))
+        return ["list", tab[i][0], tab[i][1]]  # a whole [u8; 2] element
     if k == "index" and x[1][0] == "table":
         arr = tabs(x[1][1])
         i = _ev(S, F, x[2], asg, tabs)
@@ -141,6 +147,28 @@ def _ev(S, F, x, asg, tabs):
         if path == "core::num::<impl u8>::rotate_left" and len(args) == 2:
             v, k2 = _ev(S, F, args[0], asg, tabs), _ev(S, F, args[1], asg, tabs) % 8
             return ((v << k2) | (v >> (8 - k2))) & 0xFF
+        # a private helper of the codec with integer arguments: its own returning path evaluated on the argument values
+        cb_ = F.fn(path) if path.startswith("parse::hex_str::") else None
+        if cb_ is not None and cb_.mir is not None and asg.get("_depth", 0) < 3:
+            vals_ = [_ev(S, F, a_, asg, tabs) for a_ in args]
+            if all(isinstance(v_, int) for v_ in vals_):
+                S2 = sym.Sym(cb_)
+                sub = dict(asg, subst={("param", i_ + 1): v_ for i_, v_ in enumerate(vals_)}, _depth=asg.get("_depth", 0) + 1)
+                hits_ = []
+                for q_ in S2.paths():
+                    if q_.end != "return":
+                        continue
+                    ok_ = True
+                    for (_, d_, taken_, vals2_) in q_.conds:
+                        v_ = _ev(S2, F, d_, sub, tabs)
+                        ok_ = (v_ not in vals2_) if taken_ == "otherwise" else (v_ == taken_)
+                        if not ok_:
+                            break
+                    if ok_:
+                        hits_.append(q_)
+                if len(hits_) == 1:
+                    return _ev(S2, F, hits_[0].ret, sub, tabs)
+                raise _Unknown("%d paths of %s" % (len(hits_), path))
         import re as _re
         m_ = _re.search(r"TryFrom<u(16|32|64|size)> for u8>::try_from$", path)
         if m_ and len(args) == 1:
@@ -169,6 +197,14 @@ def _ev(S, F, x, asg, tabs):
         if isinstance(v, tuple) and v and v[0] == x[1][2] and len(v) > 1:
             return v[1]
         raise _Unknown("payload %s of %s" % (x[1][2], v))
+    if k == "agg" and x[1] in ("array", "adt:array", "tuple"):
+        return ["list"] + [_ev(S, F, y, asg, tabs) for y in x[2]]
+    if k in ("index", "cindex") or (k == "field" and isinstance(x[2], int) and x[1][0] != "variant"):
+        base_ = _ev(S, F, x[1], asg, tabs)
+        i_ = x[2] if k in ("cindex", "field") else _ev(S, F, x[2], asg, tabs)
+        if isinstance(base_, list) and base_[:1] == ["list"] and isinstance(i_, int) and 0 <= i_ < len(base_) - 1:
+            return base_[1 + i_]
+        raise _Unknown(sym.fmt(n(x))[:80])
     if k == "agg":
         if x[1].endswith("Result::Ok"):
             return ("Ok", _ev(S, F, x[2][0], asg, tabs))
